@@ -72,4 +72,83 @@ SPECS = {
   "exhaustive_note": "families single, mpreach (next-hop length octet), mpreachflags and nexthops enumerate their stated spaces completely",
   "assumptions": ["reference decoder internal/ref/prefix.go is the trusted base; address bits beyond the prefix length are not compared (the statement speaks of address bits of the prefix)"],
  },
+
+ "C02": {
+  "level": "exploration",
+  "passes": [codec("^TestC02Unit$", name="unit"), fsm("^TestC02$", name="e2e")],
+  "rule": "pass unit (real decode+validate through the verif export shim vs internal/ref.JudgeOpen): family lattice = version{0,3,4,5,255} x AS{0,1,remote,remote+-1,AS_TRANS,65535} x hold{0,1,2,3,4,65535} x 10 identifiers x 31 hand-written "
+          "optional-parameter layouts (well-formed and every structural corruption) x 12 (local AS, remote AS) configurations, exhaustive; family optlen = every optional-parameter-length octet x every real length; family random = seeded bodies "
+          "(half acceptable, semantic faults, mutations, truncations, random strings). pass e2e (Engine V): the same generators, each OPEN sent with a seeded segmentation to a connection in OpenSent (inbound and outbound), observing the wire reply "
+          "(single NOTIFICATION belonging to a fault present / single KEEPALIVE), OnOpenMessage arguments, establishment on KEEPALIVE, and plugin-returned NOTIFICATIONs (random code/subcode, data length 0,1,2,255,4075). "
+          "distinct_nontrivial = distinct (fault set, configuration class) pairs (unit) and distinct (fault set, direction, transition/callback trace) (e2e).",
+  "exhaustive_note": "unit families lattice and optlen are enumerated completely on every run",
+  "assumptions": ENGINE_V + ["reference OPEN model internal/ref/open.go (Appendix A.1) is the trusted base; it accepts any NOTIFICATION that applies to some fault present, so the order of corebgp's checks is not prescribed"],
+ },
+
+ "C14": {
+  "level": "exploration",
+  "passes": [codec("^TestC14Unit$", name="unit"), fsm("^TestC14$", name="wire")],
+  "rule": "pass unit (newOpenMessage+encode through the export shim): local AS boundary set {1,2,23455..23457,65534..65537,42e8.., 2^32-1} and random, hold times {0,3,4,9,90,180,255,256,65534,65535} and random, random router ids, "
+          "plugin capability lists of 0..40 entries (codes 0..255 incl. 65, value lengths 0..300, totals aimed at the 243..262 byte boundary); family limit enumerates every single-capability value length 0..300 and two-capability sums 240..262. "
+          "pass wire (Engine V): same generator, inbound and outbound connections; the first message seen by the remote is parsed by the independent strict parser and compared with internal/ref.ExpectOpen. "
+          "distinct_nontrivial = distinct (representable, AS>65535, capability count class, hold 0, direction, trace) cells.",
+  "exhaustive_note": "family limit (value length 0..300) is enumerated completely",
+  "assumptions": ENGINE_V + ["expected-OPEN builder internal/ref/open.go (Appendix A.2); representable = every value <= 255 bytes and all capabilities (incl. the implicit 4-octet-AS one) <= 253 bytes, i.e. one parameter inside a 255-byte optional parameters field"],
+ },
+ "C15": {
+  "level": "exploration",
+  "passes": [codec("^TestC15$")],
+  "rule": "family notif: every (code, subcode) pair x data lengths 0..8 (quick) / 0..64 (thorough) plus 255, 256, 4074, 4075: encode = reference bytes and decode(encode(x)) = x; family notifbytes: every byte string of length <= 2 (quick) / <= 3 (thorough): "
+          "verdict = reference, encode(decode(b)) = b; families openbytes/openlattice: OPEN bodies from the C02 generators, the field lattice, every optional-parameter-length octet x real length, every short body: decoder acceptance implies strict-parser acceptance "
+          "and encode(decode(b)) = b, no value returned together with an error; family openvalues: random OPEN values with 1-3 capability parameters: decode(encode(x)) = x; family addpath: AFI boundary x all SAFI x all 256 send/receive octets, "
+          "tuple lists of 0..63 entries with truncations and invalid directions, MP capability layout.",
+  "exhaustive_note": "families notif (code x subcode), notifbytes, addpath tuple grid are enumerated completely",
+  "assumptions": ["strict reference parser internal/wire is the trusted base; an OPEN with an empty parameter list is outside the decode(encode(x)) domain (C02 makes its rejection mandatory)"],
+ },
+
+ "C08": {
+  "level": "fault_enumeration",
+  "passes": [fsm("^TestC08$")],
+  "rule": "family hdr: faulty 19-byte headers = {every length (quick: 0..64, 4077..4115, boundary and 250 random values; thorough: all 65536) x types {1,2,3,4,0,5,6,255} minus fault-free combinations} + {16 marker positions x {00,7f,fe} x 5 length/type combinations} "
+          "+ {all 252 unknown types at lengths 19 and 23}; each header is delivered in OpenSent, OpenConfirm and Established (inbound or outbound), preceded by 0-3 well-formed messages that must take effect and followed by a message that must not, "
+          "with a seeded segmentation (incl. cuts inside the faulty header). Oracle: exactly one NOTIFICATION prescribed for a fault present in the header (precedence between simultaneous faults not prescribed), then close; callbacks/UPDATE deliveries = prefix only. "
+          "family fidelity: plugin-returned NOTIFICATIONs (quick: every subcode of codes 0-6 + random; thorough: all 65536 (code,subcode) pairs twice) x data lengths {0,1,2,3,255,256,4075} from OnOpenMessage and from the update handler, compared byte for byte with the wire. "
+          "distinct_nontrivial = distinct (fault set, direction, state, prefix length, trace) signatures.",
+  "exhaustive_note": "thorough enumerates the whole 16-bit length space for 8 type values and all (code,subcode) pairs; marker positions and the 252 unknown types are enumerated on every run",
+  "assumptions": ENGINE_V,
+ },
+
+ "C03": {
+  "level": "exploration",
+  "passes": [fsm("^TestC03$")],
+  "rule": "one case = one Established session (inbound or outbound) receiving a seeded stream of 1-60 messages: UPDATE bodies of lengths {0,1,2,3,4,5,18,19,20,23,255,256,1000,4000,4075,4076,4077} and random, carrying (connection, index) ids, interleaved with KEEPALIVEs; "
+          "the byte stream is partitioned into writes by one of {single write, 1-byte writes, one write per message, writes spanning several messages, every header split at offset 1..18, random cuts} with 1 ns virtual gaps (each write a separate Read); "
+          "variants: stream glued to the KEEPALIVE that establishes the session, OnEstablished taking 5 virtual ms, handler taking random virtual time, handler returning a NOTIFICATION at a random delivery. "
+          "Oracle: delivered sequence == sent sequence (byte-exact), plugin automaton (no delivery before OnEstablished returned / after OnClose), delivered slices unchanged and not aliased at the end, NOTIFICATION verbatim + no later delivery + OnClose. "
+          "non-trivial = at least one UPDATE sent; distinct = distinct (direction, partition, variant flags, trace) signatures.",
+  "assumptions": ENGINE_V,
+ },
+
+ "C04": {
+  "level": "exploration",
+  "passes": [fsm("^TestC04$")],
+  "rule": "one case = one world with 1-3 consecutive sessions (inbound or outbound, hold time 3 s so keepalives interleave every second), each session starting 1-16 writer goroutines plus a short-body writer from inside OnEstablished, "
+          "one WriteUpdate from inside OnEstablished and one per received UPDATE from inside the handler; bodies 0..4077 bytes carrying (epoch, writer, seq); sessions end by remote close / RST / Cease / silence (hold-timer expiry) mid-burst while the writers of ended "
+          "sessions keep calling; finally Close with writers active; seeded virtual delays at the WriteUpdate/teardown schedule points. Oracle (offline join of call log and strict wire log): nil-returning call appears exactly once with equal body on the connection "
+          "of its own session, failed call at most once, per-writer order preserved, no id on a later connection, calls begun after OnClose fail, WriteUpdate inside OnClose fails, every byte is a well-formed message, no deadlock (virtual watchdog). "
+          "non-trivial = at least one successful write; distinct = distinct (direction, writers, epochs, teardown kinds, trace).",
+  "assumptions": ENGINE_V + ["memnet Write is atomic per call like a TCP socket with room in its send buffer; short-write behaviour of a full kernel buffer is not modelled"],
+ },
+
+ "C06": {
+  "level": "exploration",
+  "passes": [fsm("^TestC06$")],
+  "rule": "family grid: local hold x remote hold over {0,3,4,9,10,30,90,65535}^2 x remote traffic {silent, KEEPALIVE-only at H-10ms, UPDATE-only at H-10ms, mixed random intervals < H, silent in OpenConfirm} x direction, with local WriteUpdate patterns "
+          "{none, burst, periodic at H/3-10ms} rotated over the cells (640 sessions, enumerated every run); family multi: worlds of 1-3 consecutive sessions on one peer with independently drawn remote hold times/traffic (the outbound FSM object is reused, "
+          "so stale timer state of an earlier session is exercised; thorough adds random hold values 3..65535). All oracles are arithmetic on virtual timestamps taken at the remote (send time of its last message, arrival of corebgp's messages): "
+          "OPEN hold field = configured; expiry NOTIFICATION(4) never before last-remote-message + min(local,remote) and not later than that + 5 ms; no teardown while the remote sends every H-10ms; gaps between consecutive messages from corebgp <= H/3 + 5 ms; "
+          "hold 0: establishes, no periodic KEEPALIVE, no expiry in 10 virtual minutes of silence (longer than the 4-minute OpenSent timer). distinct = distinct (direction, local hold, session list, trace).",
+  "exhaustive_note": "the 8x8 hold-time grid x 5 traffic patterns x 2 directions is enumerated completely on every run",
+  "assumptions": ENGINE_V + ["tolerance 5 ms of virtual time absorbs the injected <= 2 us schedule-point delays and the 1 ms settle barrier"],
+ },
 }
